@@ -77,11 +77,11 @@ type c04Client struct {
 	id         int
 	opt        routingtable.ClientOptions
 	registered bool
-	late       bool                       // registered while routes existed
-	held       map[int]map[string]bool    // prefix index -> set of path keys
-	refresh    map[int][]map[string]bool  // set while a RefreshClient call is running
-	stray      []string                   // calls after unregistration / for unknown prefixes
-	lastView   map[int]string             // previous expected view per prefix (evidence)
+	late       bool                      // registered while routes existed
+	held       map[int]map[string]bool   // prefix index -> set of path keys
+	refresh    map[int][]map[string]bool // set while a RefreshClient call is running
+	stray      []string                  // calls after unregistration / for unknown prefixes
+	lastView   map[int]string            // previous expected view per prefix (evidence)
 	changes    map[int]int
 	shrinks    map[int]int
 	lastSize   map[int]int
